@@ -79,9 +79,9 @@ func (o *CandidateNode) copyToYamlNode(node *yaml.Node) {
 	node.Value = o.Value
 	node.Anchor = o.Anchor
 
-	// left to itself the emitter writes a multi-line string as a literal block, but it drops the first
+	// left to itself (or asked for a block style) the emitter writes a multi-line string as a block scalar, but it drops the first
 	// line when that is empty ("\na" comes back as "a") and a first line made of, or starting with, tabs cannot be read back
-	if o.Kind == ScalarNode && o.Style == 0 {
+	if o.Kind == ScalarNode && (o.Style == 0 || o.Style&(LiteralStyle|FoldedStyle) != 0) {
 		if firstBreak := strings.IndexByte(o.Value, '\n'); firstBreak >= 0 && (strings.Trim(o.Value[:firstBreak], " \t") == "" || o.Value[0] == '\t') {
 			node.Style = yaml.DoubleQuotedStyle
 		} else if firstBreak >= 0 && strings.ContainsAny(o.Value, "\u0085\u2028\u2029") {
